@@ -72,7 +72,7 @@ func contend(spec contendSpec) {
 	json.NewEncoder(os.Stdout).Encode(map[string]interface{}{"keys": len(contendCount), "not_once": bad,
 		"generic_runs":   []int32{atomic.LoadInt32(&genericRuns[0]), atomic.LoadInt32(&genericRuns[1])},
 		"invalid_member": invalidProbe(), "name_prefix": namesProbe(), "custom_fn": customProbe(), "verbose_late": verboseProbe(),
-		"wide": wideProbe(), "ctx_err": ctxErrProbe(), "escaped_names": escapedProbe()})
+		"wide": wideProbe(), "ctx_err": ctxErrProbe(), "escaped_names": escapedProbe(), "suffix_and_empty_args": suffixProbe()})
 }
 
 // ---- a function of package ".../tasks.V2" and the method of type V2 in package ".../tasks" have
@@ -410,6 +410,37 @@ func NmF10() error {
 	}
 	atomic.AddInt32(&nmCount[3], 1)
 	return nil
+}
+
+// names that differ only in a trailing f, m or '-' (what a careless strings.TrimRight(name, "-fm") would eat),
+// and one function requested bare, as mg.F(f) and as mg.F(f, empty...) with an empty NON-NIL argument list
+var sfxCount [6]int32
+var eaCount [2]int32
+
+func NmAr()                   { atomic.AddInt32(&sfxCount[0], 1) }
+func NmArm()                  { atomic.AddInt32(&sfxCount[1], 1) }
+func NmPer()                  { atomic.AddInt32(&sfxCount[2], 1) }
+func NmPerf()                 { atomic.AddInt32(&sfxCount[3], 1) }
+func NmAsm() error            { atomic.AddInt32(&sfxCount[4], 1); return nil }
+func NmAs() error             { atomic.AddInt32(&sfxCount[5], 1); return nil }
+func EaPlain()                { atomic.AddInt32(&eaCount[0], 1) }
+func EaVariadic(xs ...string) { atomic.AddInt32(&eaCount[1], 1) }
+
+func suffixProbe() map[string][]int32 {
+	mg.Deps(NmArm, NmAr)
+	mg.SerialDeps(NmPer, NmPerf)
+	mg.CtxDeps(context.Background(), NmAsm, NmAs)
+	empty := make([]interface{}, 0, 4)
+	mg.Deps(EaPlain, mg.F(EaPlain), mg.F(EaPlain, empty...))
+	mg.SerialDeps(mg.F(EaVariadic, empty...), mg.F(EaVariadic), EaVariadic)
+	out := map[string][]int32{"suffix": {}, "empty_args": {}}
+	for i := range sfxCount {
+		out["suffix"] = append(out["suffix"], atomic.LoadInt32(&sfxCount[i]))
+	}
+	for i := range eaCount {
+		out["empty_args"] = append(out["empty_args"], atomic.LoadInt32(&eaCount[i]))
+	}
+	return out
 }
 
 func namesProbe() []int32 {
